@@ -257,13 +257,77 @@ def fake_aio_channel(handler):
             self.kind, self.path, self.ser, self.deser = kind, path, ser, deser
 
         def __call__(self, request, timeout=None, metadata=None, **kw):
+            if self.kind.startswith("stream_"):
+                # request streaming: the requests are an (async) iterator; they are drained when the call is driven
+                return AStreamCall(self, request, timeout, metadata) if self.kind.endswith("_stream") else AStreamCall(self, request, timeout, metadata, unary_reply=True)
             raw = self.ser(request)
             r = handler(self.kind, self.path, raw, tuple(metadata or ()), self.deser, timeout)
+            if self.kind.endswith("_stream"):
+                return AStreamCall(self, None, timeout, metadata, replies=list(r))
 
             async def coro():
                 completed.append((self.kind, self.path))       # the call object was awaited (the reply / status reached the caller)
                 return r
             return coro()
+
+    class AStreamCall:
+        """Stand-in for grpc.aio's streaming call objects: an async iterator over the replies (server streaming) and / or awaitable for the single
+        reply (client streaming); api-core's async wrappers call wait_for_connection() before handing it to the caller."""
+
+        def __init__(self, multi, requests, timeout, metadata, replies=None, unary_reply=False):
+            self.multi, self.requests, self.timeout, self.metadata, self.replies, self.unary_reply = multi, requests, timeout, metadata, replies, unary_reply
+
+        async def _drive(self):
+            if self.replies is None:
+                raws = []
+                if hasattr(self.requests, "__aiter__"):
+                    async for rq in self.requests:
+                        raws.append(self.multi.ser(rq))
+                else:
+                    for rq in (self.requests or ()):
+                        raws.append(self.multi.ser(rq))
+                r = handler(self.multi.kind, self.multi.path, raws, tuple(self.metadata or ()), self.multi.deser, self.timeout)
+                self.replies = [r] if self.unary_reply else list(r)
+            completed.append((self.multi.kind, self.multi.path))
+
+        async def wait_for_connection(self):
+            return None
+
+        def __await__(self):
+            async def one():
+                await self._drive()
+                return self.replies[0]
+            return one().__await__()
+
+        def __aiter__(self):
+            async def gen():
+                await self._drive()
+                for x in self.replies:
+                    yield x
+            return gen()
+
+        async def read(self):
+            if self.replies is None:
+                await self._drive()
+            return self.replies.pop(0) if self.replies else grpc.aio.EOF
+
+        def cancel(self):
+            return False
+
+        def add_done_callback(self, cb):
+            pass
+
+        async def initial_metadata(self):
+            return ()
+
+        async def trailing_metadata(self):
+            return ()
+
+        async def code(self):
+            return grpc.StatusCode.OK
+
+        async def details(self):
+            return ""
 
     completed = []
 
@@ -272,17 +336,18 @@ def fake_aio_channel(handler):
             self._unary_unary_interceptors = []
             self.completed = completed
 
+        # (api-core picks its async wrapper by the multi-callable's grpc.aio base class)
         def unary_unary(self, path, request_serializer=None, response_deserializer=None, *a, **kw):
-            return AMulti("unary_unary", path, request_serializer, response_deserializer)
+            return type("AMultiUU", (AMulti, grpc.aio.UnaryUnaryMultiCallable), {})("unary_unary", path, request_serializer, response_deserializer)
 
         def unary_stream(self, path, request_serializer=None, response_deserializer=None, *a, **kw):
-            return AMulti("unary_stream", path, request_serializer, response_deserializer)
+            return type("AMultiUS", (AMulti, grpc.aio.UnaryStreamMultiCallable), {})("unary_stream", path, request_serializer, response_deserializer)
 
         def stream_unary(self, path, request_serializer=None, response_deserializer=None, *a, **kw):
-            return AMulti("stream_unary", path, request_serializer, response_deserializer)
+            return type("AMultiSU", (AMulti, grpc.aio.StreamUnaryMultiCallable), {})("stream_unary", path, request_serializer, response_deserializer)
 
         def stream_stream(self, path, request_serializer=None, response_deserializer=None, *a, **kw):
-            return AMulti("stream_stream", path, request_serializer, response_deserializer)
+            return type("AMultiSS", (AMulti, grpc.aio.StreamStreamMultiCallable), {})("stream_stream", path, request_serializer, response_deserializer)
 
         async def close(self, grace=None):
             pass
